@@ -127,6 +127,23 @@ def run(ctx: core.Ctx):
         fin = [v for v in th if v != nan]
         if len(set(fin)) > 1:
             ctx.nontrivial.add(json.dumps(th))
+    from score_analysis.utils import bootstrap_ci
+    import warnings
+    for method in METHODS:
+        for n in (1, 3):
+            e = {"id": next(ids), "cid": 0, "op": "bootci_all_nan", "exc": "", "method": method, "n": n,
+                 "all_nan": False, "other_unaffected": False}
+            try:
+                with warnings.catch_warnings():
+                    warnings.simplefilter("ignore")
+                    th = np.stack([np.full(n, np.nan), np.arange(n, dtype=float)], axis=1)
+                    r = np.asarray(bootstrap_ci(th, np.array([np.nan, 1.0]), 0.1, method=method))
+                    r1 = np.asarray(bootstrap_ci(np.arange(n, dtype=float), 1.0, 0.1, method=method))
+                e["all_nan"] = bool(r.shape == (2, 2) and np.isnan(r[0]).all())
+                e["other_unaffected"] = bool(r.shape == (2, 2) and np.array_equal(r[1], r1))
+            except Exception as ex:  # noqa
+                e["exc"] = f"{type(ex).__name__}: {ex}"[:200]
+            evs.append(e)
     ctx.sample(evs[len(evs) // 2])
     ctx.judge("Trace_C13", evs, cases=cases, batch=800, env_extra={"TABLES_FILE": str(tables)})
     ctx.rule = ("every replicate vector up to MaxLen over the value set and NaN (at least one finite), "
